@@ -138,7 +138,7 @@ reg(P(
 
 reg(P(
     "C10", "Every accepted schema yields code the target toolchains accept (narrow: necessary structural conditions)",
-    [("F2", ALL), ("F1", ALL), ("A2", ALL), ("A1", {"render"}), ("A13", ALL), ("F6", ALL), ("F6b", ALL), ("F7", ALL), ("F8", ALL), ("C5", {"common"}), ("F9", ALL)],
+    [("F2", ALL), ("F1", ALL), ("A2", ALL), ("A1", {"render"}), ("A13", ALL), ("F6", ALL), ("F6b", ALL), ("F7", ALL), ("F8", ALL), ("C5", {"common", "owner", "qualifier", "binding"}), ("F9", ALL)],
     "definitions are emitted children first in declaration order for the bound proto (F2); each block class pushes balanced brackets and #if/#endif on every path (F1); rendering raises no internal error: exhaustive dispatch, abstract coverage, render-context and push_string discipline (A2, A1 render part, A13); internal helper-name templates are uniquely decodable (F6); include/import statements name the file the compiler generates (F7).",
     "whether gcc, g++, CPython or Go accept the output (that needs the output); struct layout equality in C++; reserved words.",
 ))
